@@ -82,6 +82,10 @@ class DecodeState:
             raise DecodeError(f"The bit length of {base_data_type.value} objects must be a "
                               f"multiple of 8 (is: {bit_length})")
 
+        if bit_length > 64 and base_data_type in (DataType.A_INT32, DataType.A_UINT32):
+            # this can happen e.g. for objects exhibiting a length key
+            raise DecodeError(f"Integers cannot be decoded using {bit_length} bits (at most 64)")
+
         byte_length = (bit_length + self.cursor_bit_position + 7) // 8
         if self.cursor_byte_position + byte_length > len(self.coded_message):
             raise DecodeError(f"Expected a longer message.")
